@@ -55,6 +55,8 @@ pub mod stack;
 pub mod underlays;
 
 pub(crate) mod internal;
+#[cfg(feature = "verif-hooks")]
+pub mod verif;
 
 // Re-exported dependencies
 //
